@@ -100,7 +100,8 @@ def mp_matrix(A, t):
         for j in range(m):
             s = mpf(0)
             for k in range(D - 1, -1, -1):
-                s = s * t + mpf(float(A[k, i, j]))
+                v = A[k, i, j]
+                s = s * t + (mpmath.mpc(float(v.real), float(v.imag)) if np.iscomplexobj(A) else mpf(float(v)))
             M[i, j] = s
     return M
 
@@ -118,15 +119,15 @@ def mp_curve_taylor(F, D, hdigits=20, dps=30):
         h = mpf(10) ** (-hdigits)
         vals = [list(F(k * h)) for k in range(D)]
         n = len(vals[0])
-        out = np.zeros((D, n))
+        out = np.zeros((D, n), dtype=complex)
         for d in range(D):
             hd = h ** d * mpmath.factorial(d)
             for i in range(n):
                 s = mpf(0)
                 for k in range(d + 1):
                     s += (-1) ** (d - k) * mpmath.binomial(d, k) * vals[k][i]
-                out[d, i] = float(s / hd)
-        return out
+                out[d, i] = complex(s / hd)
+        return out if np.any(out.imag != 0) else out.real.copy()
     finally:
         mp.dps = old
 
@@ -231,3 +232,16 @@ def assert_unchanged(obj, a, what):
         raise Violation('%s: the call modified its operand (first difference at %s: %r was %r), so the equation no longer '
                         'holds for the operand the caller holds' % (what, where, data[where].item() if len(bad) else None,
                                                                     np.asarray(a)[where].item() if len(bad) else None))
+
+
+def out_buffer(shape, dtype, mode):
+    """result buffer handed over as ``out=``: zeros, or deterministic non-zero garbage (NumPy's out= convention and the
+    code's own kernels -- ``_dot``/``_outer`` clear ``out`` first, internal callers pass ``xbar.copy()`` -- do not require a
+    cleared buffer)"""
+    n = int(np.prod(shape, dtype=int))
+    if mode == 'zeros':
+        return np.zeros(shape, dtype=dtype)
+    g = (1.25 + 0.5 * (np.arange(n) % 7)).reshape(shape)
+    if np.dtype(dtype).kind == 'c':
+        return g * (1.0 - 0.5j)
+    return g.astype(dtype)
